@@ -133,6 +133,12 @@ def monitor_size(row, pd, smt, res):
             return ('more-nodes-than-needed', '%d nodes requested, %d suffice for %s' % (n, n - 1, pd))
     if res['node_count'] * ac != res['total_cpu_count'] and res['node_count'] * ac != 0:
         return ('not-whole-nodes', str(res))
+    if res['processes_per_host'] != ac:
+        # the batch system is told how many processes fit on a host: the usable cores of a node - with this figure and
+        # the total it derives the number of nodes it gives the job
+        return ('job-per-host-figure-differs-from-usable-cores',
+                'processes_per_host %d, a node has %d usable cores (%d blocked); %d nodes x that != total %d'
+                % (res['processes_per_host'], ac, len(row['blockedCores']), res['node_count'], res['total_cpu_count']))
     if res['cores_per_node'] != cpn:
         return ('agent-cores-per-node-wrong', str(res))
     return None
